@@ -510,15 +510,52 @@ def _batch_events(ev, t0, t2):
                                 thrust_func=partial(ntwBurn, acc_vector=np.array([0.0, 2.0e-5, 0.0])), agent_id=1)]
 
 
-def rel_batch(ctx, spec, X, t0, t2, layout="C", ttype="float", ev=None):
-    """Columns of one (6,K) propagation == K single propagations (also with a scheduled impulse / finite burn inside the call)."""
+def _as_dtype(X, dtype):
+    """(values exactly representable in dtype as float64, the array handed to the library).  The state's element type is
+    an input dimension: integer-valued and single-precision arrays are valid inputs and integration is documented in doubles."""
     X = np.array(X, dtype=float)
+    if dtype in (None, "float64"):
+        return X, X.copy()
+    if dtype == "float32":
+        Xe = X.astype(np.float32).astype(float)
+        return Xe, Xe.astype(np.float32)
+    Xe = np.round(X)  # "int64"
+    return Xe, Xe.astype(np.int64)
+
+
+def _int_ok(x):
+    """An integer-rounded state that is still an orbit inside the property's range (periapsis above 6600 km, e <= 0.7)."""
+    x = np.round(np.asarray(x, dtype=float))
+    r, v = np.linalg.norm(x[:3]), np.linalg.norm(x[3:])
+    en = v * v / 2 - MU / r
+    if en >= 0:
+        return False
+    a = -MU / (2 * en)
+    h = np.linalg.norm(np.cross(x[:3], x[3:]))
+    e = math.sqrt(max(0.0, 1 - h * h / (MU * a)))
+    return e <= 0.7 and a * (1 - e) > 6600.0
+
+
+def _pick_dtype(rng, X, allow_int=True):
+    d = rng.choice([None, None, None, "float32", "int64"])
+    if d == "int64":
+        cols = [X] if np.ndim(X) == 1 else [np.asarray(X)[:, k] for k in range(np.asarray(X).shape[1])]
+        if not allow_int or not all(_int_ok(c) for c in cols):
+            d = "float32"
+    return d
+
+
+def rel_batch(ctx, spec, X, t0, t2, layout="C", ttype="float", ev=None, dtype=None):
+    """Columns of one (6,K) propagation == K single propagations (also with a scheduled impulse / finite burn inside the call)."""
+    X, Xin = _as_dtype(X, dtype)
     K_ = X.shape[1]
-    w = _w("batch", spec=spec, X=X, t0=t0, t2=t2, layout=layout, ttype=ttype, ev=ev)
+    w = _w("batch", spec=spec, X=X, t0=t0, t2=t2, layout=layout, ttype=ttype, ev=ev, dtype=dtype)
     mon, p = _mon(spec, "batch_vs_single"), _pfx(spec)
     if ev and t2 - t0 < 3 * TE_MIN:
         ev = None
-    Y = _propagate(ctx, spec, t0, t2, _layout(X, layout), p + "batch", w, mon, ttype, events=_batch_events(ev, t0, t2))
+    if dtype:
+        ctx.count("relations_with_" + dtype + "_state")
+    Y = _propagate(ctx, spec, t0, t2, _layout(Xin, layout), p + "batch", w, mon, ttype, events=_batch_events(ev, t0, t2))
     if Y is None:
         return False
     want = (6,) if K_ == 1 else (6, K_)
@@ -539,10 +576,12 @@ def rel_batch(ctx, spec, X, t0, t2, layout="C", ttype="float", ev=None):
     return True
 
 
-def rel_bulk(ctx, spec, X, times, ttype="float", container="list", te=None):
+def rel_bulk(ctx, spec, X, times, ttype="float", container="list", te=None, dtype=None):
     """propagateBulk(times, X)[..., i] == propagate(times[0], times[i+1], X); optional no-op event at te."""
-    X = np.array(X, dtype=float)
-    w = _w("bulk", spec=spec, X=X, times=list(times), ttype=ttype, container=container, te=te)
+    X, Xin = _as_dtype(X, dtype)
+    if dtype:
+        ctx.count("relations_with_" + dtype + "_state")
+    w = _w("bulk", spec=spec, X=X, times=list(times), ttype=ttype, container=container, te=te, dtype=dtype)
     ev = te is not None
     mon, p = _mon(spec, "event_restart" if ev else "bulk_vs_single"), _pfx(spec)
     rel = p + ("bulk-event" if ev else "bulk")
@@ -551,7 +590,7 @@ def rel_bulk(ctx, spec, X, times, ttype="float", container="list", te=None):
     if container == "array" and ttype == "float":
         tt = np.array(tt)
     events = [_null_event(te)] if ev else None
-    out = _call(ctx, lambda: d.propagateBulk(tt, X.copy(), scheduled_events=events), rel, w, mon)
+    out = _call(ctx, lambda: d.propagateBulk(tt, Xin.copy(), scheduled_events=events), rel, w, mon)
     if out is None:
         return False
     out = np.asarray(out, dtype=float)
@@ -1118,7 +1157,7 @@ def _tb_case(ctx, rng, i):
         dt = min(_rand_dt(rng, x0, max_s, max_rev), (1.0 if q else 3.0) * per_min * (2.0 if kk <= 3 else 1.0))
         t2 = _end(t0, max(dt, 1.0))
         layout = rng.choice(["C", "C", "F", "strided"])
-        done = rel_batch(ctx, spec, X, t0, t2, layout, ttype, ev=rng.choice([None, None, "impulse", "burn_ntw"]))
+        done = rel_batch(ctx, spec, X, t0, t2, layout, ttype, ev=rng.choice([None, None, "impulse", "burn_ntw"]), dtype=_pick_dtype(rng, X))
         key = (rel, spec["method"], kk, layout, _rnd(X), t0, t2)
         smp = {"relation": "batch vs single", "K": kk, "layout": layout, "method": spec["method"], "t0": t0, "dt": t2 - t0, "first_column": _rnd(x0)}
     elif rel in ("bulk", "bulk_event"):
@@ -1131,7 +1170,7 @@ def _tb_case(ctx, rng, i):
             te = t0 + (t2 - t0) * rng.uniform(0.05, 0.95)
             if rng.random() < 0.3:
                 te = float(math.floor(te)) if t0 < math.floor(te) else te
-        done = rel_bulk(ctx, spec, X, times, ttype, rng.choice(["list", "array"]), te)
+        done = rel_bulk(ctx, spec, X, times, ttype, rng.choice(["list", "array"]), te, dtype=_pick_dtype(rng, X))
         key = (rel, spec["method"], kk, _rnd(X), tuple(times), te)
         smp = {"relation": "propagateBulk vs propagate" + (" + no-op event" if te is not None else ""), "K": kk or "(6,)", "n_out": len(times) - 1,
                "method": spec["method"], "t0": t0, "dt": t2 - t0}
@@ -1213,7 +1252,7 @@ def _sp_case(ctx, rng, i):
         times = _grid(rng, t0, t2)
         if len(times) > 5:
             times = [*times[:3], *times[-2:]]
-        done = rel_bulk(ctx, spec, X, times)
+        done = rel_bulk(ctx, spec, X, times, dtype=_pick_dtype(rng, X, allow_int=False))
         key = (rel, json.dumps(spec, sort_keys=True), _rnd(X), tuple(times))
         smp = {"relation": "SP propagateBulk vs propagate", "spec": spec, "n_out": len(times) - 1, "t0": t0, "dt": dt}
     elif rel == "event":
@@ -1324,9 +1363,9 @@ def replay(ctx, w):
     elif k == "compose":
         rel_compose(ctx, w["spec"], w["x0"], w["t0"], w["t1"], w["t2"], w.get("how", "uniform"), w.get("ttype", "float"))
     elif k == "batch":
-        rel_batch(ctx, w["spec"], w["X"], w["t0"], w["t2"], w.get("layout", "C"), w.get("ttype", "float"), w.get("ev"))
+        rel_batch(ctx, w["spec"], w["X"], w["t0"], w["t2"], w.get("layout", "C"), w.get("ttype", "float"), w.get("ev"), w.get("dtype"))
     elif k == "bulk":
-        rel_bulk(ctx, w["spec"], w["X"], w["times"], w.get("ttype", "float"), w.get("container", "list"), w.get("te"))
+        rel_bulk(ctx, w["spec"], w["X"], w["times"], w.get("ttype", "float"), w.get("container", "list"), w.get("te"), w.get("dtype"))
     elif k == "bulk_degenerate":
         rel_bulk_degenerate(ctx, w["spec"], w["x0"], w["times"], w.get("how", ""))
     elif k == "event":
